@@ -84,7 +84,7 @@ Lemma desc_ok_parts :
   md_ranges md = fst (mk_ranges ids) /\ md_n_ranges md = snd (mk_ranges ids).
 Proof.
   unfold desc_ok in D. fold ids in D. rewrite !andb_true_iff in D.
-  destruct D as [[[[[[[Hi Hb] _] _] _] Hl] Hr] _].
+  destruct D as [[[[[[Hi Hb] _] _] Hl] Hr] _].
   split; [apply incrb_incr; exact Hi|]. split.
   { intros id Hin. rewrite forallb_forall in Hb. specialize (Hb id Hin). lia. }
   split; [lia|].
